@@ -337,4 +337,35 @@ theorem write_decode_full (kvs : List (Bytes × KVal)) (ts : List TIn) (file : B
       rw [hfile, slice_append_right _ _ _ _ (by omega)]
       exact hsl
 
+
+/-- **The property for the list the CALLER passed.**  `WriteGGUF` sorts the tensor list before writing it (stable sort by
+    block index, `slices.SortStableFunc`); the model takes the written order `written` as a parameter.  Whatever order the
+    sort produced — any permutation of the caller's list `ts` (the driver checks on every run that every tensor's data
+    source is asked for its bytes exactly once, i.e. that the written order IS a permutation) — every tensor of the caller's
+    list is found in the decoded file with its name, kind, dimension-reversed shape, at an aligned location inside the file
+    that holds exactly its bytes; and nothing else is found (same count). -/
+theorem write_decode_caller_list (kvs : List (Bytes × KVal)) (ts written : List TIn) (file : Bytes) (align : Nat)
+    (maxArraySize : Int) (hperm : written.Perm ts)
+    (hnodup : (kvs.map (·.1)).Nodup)
+    (hnoparam : ∀ kv ∈ kvs, kv.1 ≠ keyParamCount)
+    (htv : ∀ kv ∈ kvs, TypedVal kv.2) (htt : ∀ t ∈ ts, TypedTensor t ∧ WfT t)
+    (halign : alignmentIn kvs = .ok align) (hpos : 0 < align)
+    (henc : encode false kvs written = .ok file) (hlen : file.length < two63) :
+    ∃ d, decode file maxArraySize none = .ok d ∧ d.endOffset = file.length ∧ d.tensors.length = ts.length ∧
+      ∀ t ∈ ts, ∃ (i : Nat) (hi : i < d.tensors.length),
+        d.tensors[i].name = t.name ∧ d.tensors[i].kind = t.kind ∧ d.tensors[i].shape = t.shape.reverse ∧
+        d.tensors[i].offset % align = 0 ∧
+        d.tensorOffset + d.tensors[i].offset + t.data.length ≤ file.length ∧
+        slice file (d.tensorOffset + d.tensors[i].offset) t.data.length = t.data := by
+  obtain ⟨d, hd, hr⟩ := write_decode_full kvs written file align maxArraySize hnodup hnoparam htv
+    (fun t ht => htt t (hperm.mem_iff.mp ht)) halign hpos henc hlen
+  refine ⟨d, hd, hr.endOffset, by rw [hr.count, hperm.length_eq], ?_⟩
+  intro t ht
+  have htw : t ∈ written := hperm.mem_iff.mpr ht
+  obtain ⟨i, hi, hti⟩ := List.getElem_of_mem htw
+  have hdi : i < d.tensors.length := by rw [hr.count]; exact hi
+  have := hr.tensor i hi hdi
+  rw [hti] at this
+  exact ⟨i, hdi, this⟩
+
 end OllamaVerif.Gguf
